@@ -28,7 +28,7 @@ NoTo  == 1000000
 (*   <<year, method>> from the [accounting_methods] section (<< >>: none); shipped: the    *)
 (*   languages for which every report of the country has a template; fault: "" or the name *)
 (*   of the fault injected into an otherwise valid input; pre: files already in the output *)
-(*   directory before the run; minyear: calendar year of the earliest transaction.         *)
+(*   directory before the run; minyear: calendar year of the earliest taxable event.       *)
 EffLang(r)   == IF r.lang = "" THEN DefaultLang(r.country) ELSE r.lang
 MethodTag(r) == IF r.sched # << >> THEN (IF Len(r.sched) = 1 THEN r.sched[1][2] ELSE "mixed")
                 ELSE IF r.method = "" THEN DefaultMethod(r.country) ELSE r.method
@@ -43,7 +43,7 @@ Supported(r) ==
   /\ ~(r.method # "" /\ r.sched # << >>)
   /\ EffLang(r) \in r.shipped
   /\ r.from <= r.to
-  /\ r.sched = << >> \/ r.sched[1][1] <= r.minyear        \* the schedule says which method applies to the earliest transactions
+  /\ r.sched = << >> \/ r.sched[1][1] <= r.minyear        \* the schedule names a method for the year of the earliest taxable event
 
 Expected(r) == {r.prefix \o MethodTag(r) \o "_" \o g \o ".ods" : g \in Generators(r.country)}
 
